@@ -671,6 +671,90 @@ def fuel_correspondence(ctx, rng, n):
                    bad == 0, kind="correspondence", detail="disagreements %d" % bad)
 
 
+# ---------------------------------------------------------------------------------------------------------------
+# position numbering: Model/Assignment.lean (Props/C18Assignment.lean) vs DASSH_Assignment.parse_assignment_section
+
+def real_assignment_line(r, p0, p1, n_ring):
+    """the real parser on an Assignment section holding one full outer ring (so that the core has n_ring rings) and the line under
+    test (type 'probe'); returns the indices the probe line ends up at, or 'err'"""
+    from dassh.read_input import DASSH_Input
+    obj = DASSH_Input.__new__(DASSH_Input)
+    obj._default_indent = 0
+    obj._logger = _CaptureLogger()
+    txt = "[Assignment]\n    [[ByPosition]]\n"
+    txt += "        base = %d, 1, %d, FLOWRATE=1.0\n" % (n_ring, 6 * (n_ring - 1) if n_ring > 1 else 1)
+    txt += "        probe = %d, %d, %d, FLOWRATE=2.0\n" % (r, p0, p1)
+    try:
+        dat = obj.parse_assignment_section(txt)
+    except SystemExit:
+        return "err"
+    except Exception as ex:
+        return "crash:" + type(ex).__name__
+    got = []
+    for i, e in enumerate(dat['ByPosition']):
+        if e and e[0] == 'probe':
+            ring0, pos0, asm = e[1]
+            if asm != i:
+                return "inconsistent"
+            got.append((i, ring0 + 1, pos0 + 1))
+    return got
+
+
+def assignment_correspondence(ctx, rng, n):
+    reqs, cases = [], []
+    for _ in range(n):
+        n_ring = rng.randint(2, 7)
+        r = rng.choice([rng.randint(1, n_ring)] * 6 + [0, -1, n_ring])
+        size = 1 if r <= 1 else 6 * (r - 1)
+        kind = rng.choice(["valid", "valid", "valid", "single", "first-zero", "negative", "beyond-ring", "last-before-first", "edge"])
+        if kind == "valid":
+            p0 = rng.randint(1, size)
+            p1 = rng.randint(p0, size)
+        elif kind == "single":
+            p0 = p1 = rng.randint(1, size)
+        elif kind == "first-zero":
+            p0, p1 = 0, rng.randint(0, size)
+        elif kind == "negative":
+            p0 = -rng.randint(1, 3)
+            p1 = rng.choice([p0, 1, size])
+        elif kind == "beyond-ring":
+            p1 = size + rng.randint(1, 3)
+            p0 = rng.choice([p1, max(1, size - 1)])
+        elif kind == "last-before-first":
+            p0 = rng.randint(1, size) + 1
+            p1 = p0 - rng.randint(1, 2)
+        else:
+            p0, p1 = rng.choice([(1, size), (size, size), (1, 1)])
+        reqs.append("assign %d %d %d" % (r, p0, p1))
+        cases.append((kind, n_ring, r, p0, p1))
+    bad = 0
+    for rep, (kind, n_ring, r, p0, p1) in zip(modelio.ask(reqs), cases):
+        real = real_assignment_line(r, p0, p1, n_ring)
+        ctx.evals += 1
+        ctx.count("assignment:%s:%s" % (kind, "ok" if isinstance(real, list) else real))
+        exists = r >= 1 and 1 <= p0 <= p1 <= (1 if r == 1 else 6 * (r - 1))
+        if isinstance(real, list) and not exists:
+            ctx.violation("c18-invalid-accepted:assignment-line:%s" % kind,
+                          "the Assignment line 'probe = %d, %d, %d' (a %d-ring core) names positions that do not exist but is accepted: "
+                          "it ends up at %s" % (r, p0, p1, n_ring, real or "no position at all (silently dropped)"),
+                          line=[r, p0, p1], n_ring=n_ring, call="harness.checks.c18.real_assignment_line")
+        elif isinstance(real, str) and real.startswith("crash"):
+            ctx.violation("c18-invalid-exception:assignment-line:%s:%s" % (kind, real.split(":")[1]),
+                          "the Assignment line 'probe = %d, %d, %d' ends in an unhandled %s in the reader" % (r, p0, p1, real.split(":")[1]),
+                          line=[r, p0, p1], n_ring=n_ring)
+        if rep == "err":
+            same = real == "err"
+        else:
+            idx = [int(x) for x in rep.split()[1:]]
+            same = isinstance(real, list) and [g[0] for g in real] == idx and [(g[1], g[2]) for g in real] == [(r, p0 + k) for k in range(len(idx))]
+        if not same:
+            bad += 1
+            ctx.problem("correspondence", "Model.Assignment vs parse_assignment_section", "line %d, %d, %d (%s): model %s, real %s"
+                        % (r, p0, p1, kind, rep, real))
+    ctx.obligation("Model.Assignment reproduces parse_assignment_section (verdict, indices, ring / position of every entry) on %d "
+                   "assignment lines" % len(cases), bad == 0, kind="correspondence", detail="disagreements %d" % bad)
+
+
 def run(ctx):
     rng = random.Random(18000 + ctx.seed)
     ctx.rule = ("valid generated inputs (1-7 assemblies, 1-2 types, unrodded regions, low-fidelity, fuel models, all gap models) and "
@@ -680,9 +764,11 @@ def run(ctx):
     ctx.prove("Dassh.Props.C18Regions")
     ok_driver = modelio.build_driver(ctx)
     ctx.prove("Dassh.Props.C18Fuel")
+    ctx.prove("Dassh.Props.C18Assignment")
     if ok_driver:
         regions_correspondence(ctx, rng, 3000 if ctx.thorough else 600)
         fuel_correspondence(ctx, rng, 3000 if ctx.thorough else 600)
+        assignment_correspondence(ctx, rng, 3000 if ctx.thorough else 600)
     n_valid = 24 if ctx.thorough else 8
     reqs, expect = [], []
     for ci in range(n_valid):
